@@ -91,6 +91,11 @@ def asts(tier):
         for op in ARITH[:4]:
             out.append(["bin", op, ["bin", cop, A, B], C])
             out.append(["bin", op, C, ["bin", cop, A, B]])
+    # a negation used as a number (the switch idiom NOT(a > b) * c), on either side of every arithmetic operator
+    for cop in (">", "<", "=="):
+        for op in ARITH[:4]:
+            out.append(["bin", op, ["un", "not", ["bin", cop, A, B]], C])
+            out.append(["bin", op, C, ["un", "not", ["bin", cop, A, B]]])
     # IF / AND / OR / NOT
     conds = []
     for cop in CMP:
@@ -450,6 +455,7 @@ def run(ctx):
         # nesting send the library's PEG parser into exponential backtracking - it neither answers nor rejects within the hour)
         cases = [(i, t, sp) for i, t in enumerate(trees) for sp in (sps if len(json.dumps(t)) < 2000 else sps[:2])]
         cases += [(i, t, "bareif") for i, t in enumerate(trees) if xmile.has_bare_if(t)]
+        cases += [(i, t, "notbr") for i, t in enumerate(trees) if xmile.has_not_operand(t)]
         for k in range(0, len(cases), per):
             jobs.append((b, cases[k:k + per]))
     # ties: every condition form once more under a binding in which all operands are equal (a < b, NOT(a < b), a >= b ... on equal values)
